@@ -125,7 +125,7 @@ fn main() {
                 c07::replay_c07(&v)
             } else if h.starts_with("c11.") {
                 c11::replay(&v)
-            } else if h.starts_with("x2.client-limit") || h.starts_with("x2.server-limit") {
+            } else if h.starts_with("x2.client-limit") || h.starts_with("x2.server-limit") || h == "c05.fill" {
                 c05::replay(&v).unwrap_or(false)
             } else if h.starts_with("x2.hostile") || h == "c18.directed" {
                 c18::replay(&v).unwrap_or(false)
@@ -133,9 +133,9 @@ fn main() {
                 c15::replay(&v).unwrap_or(false)
             } else if h.starts_with("x2.life") {
                 c19::replay(&v).unwrap_or(false)
-            } else if h.starts_with("x2.acks") {
+            } else if h.starts_with("x2.acks") || h == "c14.fill" {
                 c14::replay(&v).unwrap_or(false)
-            } else if h.starts_with("x2.receiver") {
+            } else if h.starts_with("x2.receiver") || h == "c03.fill" {
                 c03::replay(&v).unwrap_or(false)
             } else if h.starts_with("x2.sender") {
                 let prop: &'static str = if v["property"].as_str() == Some("C02") { "C02" } else { "C16" };
